@@ -13,3 +13,4 @@ def check(A):
         S.direct_websocket(A, fl, 'C06')
         S.get_request_rules(A, fl, 'C06')
         R.upgrade_configured_rule(A, fl, 'C06')
+        R.upgrade_refusal_harmless_rule(A, fl, 'C06')
